@@ -115,6 +115,26 @@ func verifyAll(r *mon.Run, c Case, what string, pub ed25519.PublicKey, m, sig []
 		if err == nil {
 			bv.AddExpandedWithOptions(exp, m, sig, &o)
 		}
+		// the same triples once more without key expansion, few signers many entries: (other, this) x 3
+		if pi <= 0 {
+			bn := ed25519.NewBatchVerifier()
+			bn.ForceNoPublicKeyExpansion()
+			for k := 0; k < 3; k++ {
+				bn.Add(otherPub, otherMsg, otherSig)
+				bn.AddWithOptions(pub, m, sig, &o)
+			}
+			var nOnly, nAll bool
+			var nBits []bool
+			panN, _ := mon.Try(func() {
+				nOnly = bn.VerifyBatchOnly(nil)
+				nAll, nBits = bn.Verify(nil)
+			})
+			r.Eval(nil)
+			cofl := o.Verify != nil && o.Verify.CofactorlessVerify
+			if panN || nAll != want || nOnly != (want && !cofl) || len(nBits) != 6 || !nBits[0] || nBits[1] != want {
+				r.Violate(fmt.Sprintf("%s/batch-without-expansion-%s/want=%v", what, name, want), fmt.Sprintf("(other, this) x 3 without key expansion: VerifyBatchOnly=%v Verify=%v %v panic=%v", nOnly, nAll, nBits, panN), c)
+			}
+		}
 		var all bool
 		var bits []bool
 		pan3, _ := mon.Try(func() { all, bits = bv.Verify(nil) })
